@@ -8,6 +8,8 @@ CONSTANTS
   AllowCancel = TRUE
   AllowSpurious = TRUE
   FileLayer = FALSE
+  SilentRelease = TRUE
+  ForgetsHandle = FALSE
 SPECIFICATION FairSpec
 INVARIANTS Safe NoStrandUnlessSilent
-PROPERTIES Live
+PROPERTIES LiveModuloSilent NoLeakLive
